@@ -178,20 +178,23 @@ Fixpoint expand_args_in_tokens (toks : list token) (args : list str) : xres (lis
       end
   end.
 
+(** a token the positional-parameter pass would touch *)
+Definition has_positional (toks : list token) : bool := existsb needs_args toks.
+
+(** [scripting::expand_args] (since 032e44d): the line is returned UNCHANGED when
+    no token needs positional expansion; otherwise tokenized, substituted and
+    re-rendered with tokens_to_line. *)
 Definition expand_args (l : str) (args : list str) : xres str :=
-  match expand_args_in_tokens (parse_line l) args with
-  | XOk toks => XOk (tokens_to_line toks)
-  | XPanic => XPanic
-  | XFuel => XFuel
-  end.
+  let toks := parse_line l in
+  if negb (has_positional toks) then XOk l
+  else match expand_args_in_tokens toks args with
+       | XOk toks' => XOk (tokens_to_line toks')
+       | XPanic => XPanic
+       | XFuel => XFuel
+       end.
 
 (** a line none of whose tokens is touched by the positional-parameter pass *)
-Definition no_positional (l : str) : bool := negb (existsb needs_args (parse_line l)).
-
-(** proposed repair (notes/C16-fix-1.patch): leave the line alone when no token
-    needs positional expansion *)
-Definition expand_args_fixed (l : str) (args : list str) : xres str :=
-  if existsb needs_args (parse_line l) then expand_args l args else XOk l.
+Definition no_positional (l : str) : bool := negb (has_positional (parse_line l)).
 
 (** [tools::env_args_to_command_line]: every argv element after argv[0] that is
     not literally -c, concatenated WITHOUT separator *)
@@ -214,44 +217,89 @@ Fixpoint has_bangbang (s : str) : bool :=
     segment of [line_to_cmds] is cut into (all later passes are functions of them) *)
 Definition seg_tokens (l : str) : list (list token) := map parse_line (line_to_cmds l).
 
-(** * The failing classes of the round trip, as decidable predicates on the line
-    (mirrored by nothing in the driver: the driver asks the extracted model).
-    [k_esc]: a backslash outside single and double quotes (the tokenizer consumes it,
-    tokens_to_line does not put it back); [k_glue]: a quote character that touches
-    a non-blank on its outer side (the neighbour is pulled inside the quotes);
-    [k_paren]: a parenthesis outside quotes; [k_orglue]: two bars directly after a
-    non-blank (cut into two one-bar tokens). *)
-Record kflags := mkk { k_esc : bool; k_glue : bool; k_paren : bool; k_orglue : bool }.
-Definition is_quote_char (c : char) : bool := (c =? c_sq) || (c =? c_dq) || (c =? c_bq).
-Definition nonblank (o : option char) : bool :=
-  match o with Some p => negb (p =? c_space) | None => false end.
 
-Fixpoint kscan (l : str) (q : option char) (prev : option char) (skip : bool) (f : kflags) : kflags :=
-  match l with
-  | [] => f
+(** * run_script's folding of continuation lines (src/scripting.rs:67-74):
+    when the text contains backslash-newline, first every match of
+    (blanks-or-none backslash newline blanks) | (blanks backslash newline blanks-or-none)
+    is replaced by one blank (blank = space or tab), then every remaining
+    backslash-newline is removed.
+    The first replace_all as a one-pass scanner (leftmost match, alternatives
+    in order, greedy blanks): [bl] = pending run of blanks (reversed). *)
+Definition is_blank (c : char) : bool := (c =? c_space) || (c =? c_tab).
+
+Inductive fstate :=
+| F0 (bl : str)                  (* scanning; [bl] pending blanks *)
+| FBs (bl : str)                 (* a backslash seen after the pending blanks *)
+| FNl (bl : str) (had : bool).   (* backslash newline seen; absorbing blanks, [had] = at least one *)
+
+(** what a state still owes the output when the text ends / no match is made *)
+Definition fflush (st : fstate) : str :=
+  match st with
+  | F0 bl => rev bl
+  | FBs bl => rev bl ++ [c_bs]
+  | FNl bl had => if had || negb (is_empty bl) then [c_space] else [c_bs; c_nl]
+  end.
+
+Fixpoint fold1 (st : fstate) (s : str) : str :=
+  match s with
+  | [] => fflush st
   | c :: r =>
-    let nxt := match r with n :: _ => Some n | [] => None end in
-    if skip then kscan r q (Some c) false f
-    else match q with
-    | None =>
-        if c =? c_bs then kscan r q (Some c) true (mkk true (k_glue f) (k_paren f) (k_orglue f))
-        else if is_quote_char c then
-          kscan r (Some c) (Some c) false (mkk (k_esc f) (k_glue f || nonblank prev) (k_paren f) (k_orglue f))
-        else if (c =? c_lp) || (c =? c_rp) then
-          kscan r q (Some c) false (mkk (k_esc f) (k_glue f) true (k_orglue f))
-        else if (c =? c_pipe) && match nxt with Some n => n =? c_pipe | None => false end && nonblank prev then
-          kscan r q (Some c) false (mkk (k_esc f) (k_glue f) (k_paren f) true)
-        else kscan r q (Some c) false f
-    | Some qc =>
-        if (c =? c_bs) && (qc =? c_bq) then kscan r q (Some c) true (mkk true (k_glue f) (k_paren f) (k_orglue f))
-        else if (c =? c_bs) && (qc =? c_dq) then kscan r q (Some c) true f
-        else if c =? qc then
-          kscan r None (Some c) false (mkk (k_esc f) (k_glue f || nonblank nxt) (k_paren f) (k_orglue f))
-        else kscan r q (Some c) false f
+    match st with
+    | F0 bl =>
+        if is_blank c then fold1 (F0 (c :: bl)) r
+        else if c =? c_bs then fold1 (FBs bl) r
+        else rev bl ++ c :: fold1 (F0 []) r
+    | FBs bl =>
+        if c =? c_nl then fold1 (FNl bl false) r
+        else if is_blank c then rev bl ++ c_bs :: fold1 (F0 [c]) r
+        else if c =? c_bs then rev bl ++ c_bs :: fold1 (FBs []) r
+        else rev bl ++ c_bs :: c :: fold1 (F0 []) r
+    | FNl bl had =>
+        if is_blank c then fold1 (FNl bl true) r
+        else fflush st ++ (if c =? c_bs then fold1 (FBs []) r else c :: fold1 (F0 []) r)
     end
   end.
 
-Definition c16_classes (l : str) : kflags := kscan l None None false (mkk false false false false).
-Definition known_c16 (l : str) : bool :=
-  let f := c16_classes l in
-  k_esc f || k_glue f || k_paren f || k_orglue f || negb (is_complete l) || negb (no_positional l).
+(** the second replace_all: every remaining backslash-newline is removed *)
+Fixpoint rm_bsnl (s : str) : str :=
+  match s with
+  | c :: ((d :: r') as r) => if (c =? c_bs) && (d =? c_nl) then rm_bsnl r' else c :: rm_bsnl r
+  | _ => s
+  end.
+
+Fixpoint contains_bsnl (s : str) : bool :=
+  match s with
+  | c :: ((d :: _) as r) => ((c =? c_bs) && (d =? c_nl)) || contains_bsnl r
+  | _ => false
+  end.
+
+Definition fold_body (t : str) : str := rm_bsnl (fold1 (F0 []) t).
+Definition fold_lines (t : str) : str := if contains_bsnl t then fold_body t else t.
+
+(** proposed repair (notes/C16-fix-2.patch): escaped backslashes (pairs, from the
+    left of each run) are put out of the way first, so that a newline after an
+    EVEN number of backslashes is not a continuation *)
+Fixpoint hide_pairs (s : str) : str :=
+  match s with
+  | c :: ((d :: r') as r) => if (c =? c_bs) && (d =? c_bs) then 0 :: 0 :: hide_pairs r' else c :: hide_pairs r
+  | _ => s
+  end.
+Fixpoint unhide_pairs (s : str) : str :=
+  match s with
+  | c :: ((d :: r') as r) => if (c =? 0) && (d =? 0) then c_bs :: c_bs :: unhide_pairs r' else c :: unhide_pairs r
+  | _ => s
+  end.
+Definition fold_lines_fixed (t : str) : str :=
+  let h := hide_pairs t in
+  if contains_bsnl h then unhide_pairs (fold_body h) else t.
+
+(** every newline is preceded by an even number of backslashes: no line of the
+    text asks for a continuation *)
+Fixpoint nc (odd : bool) (t : str) : bool :=
+  match t with
+  | [] => true
+  | c :: r => if c =? c_bs then nc (negb odd) r
+              else if c =? c_nl then negb odd && nc false r
+              else nc false r
+  end.
+Definition no_cont (t : str) : bool := nc false t.
